@@ -42,6 +42,57 @@ def _fmt_widths(fmt: str) -> list[int]:
         raise TranslateError(f'struct format {fmt!r}: unsupported code {e}')
 
 
+def _split_site(tree) -> tuple[str, int, dict]:
+    """_get_file_parts: the statement that cuts the extension off the file name -> ('SplitLast'|'SplitFirst', separator code point)."""
+    gfp = _find(tree.body, ast.FunctionDef, '_get_file_parts')
+    found = []
+    for n in ast.walk(gfp):
+        if not isinstance(n, ast.If):
+            continue
+        asg = [b for b in n.body if isinstance(b, ast.Assign) and isinstance(b.targets[0], ast.Tuple)
+               and any(isinstance(e, ast.Name) and e.id == 'ext' for e in b.targets[0].elts)
+               and isinstance(b.value, ast.Call) and isinstance(b.value.func, ast.Attribute)]
+        if asg:
+            found.append((n, asg))
+    if len(found) != 1 or len(found[0][1]) != 1 or len(found[0][0].body) != 1 or found[0][0].orelse:
+        raise TranslateError('_get_file_parts: expected exactly one `if ...: <names> = filename.<split>(...)` statement')
+    iff, (asg,) = found[0]
+    conds = iff.test.values if isinstance(iff.test, ast.BoolOp) and isinstance(iff.test.op, ast.And) else [iff.test]
+    no_ext = False
+    guard_sep = None
+    for c in conds:
+        if ast.unparse(c) == 'not ext':
+            no_ext = True
+        elif isinstance(c, ast.Compare) and len(c.ops) == 1 and isinstance(c.ops[0], ast.In) and isinstance(c.left, ast.Constant) \
+                and isinstance(c.left.value, str) and ast.unparse(c.comparators[0]) == 'filename':
+            guard_sep = c.left.value
+        else:
+            raise TranslateError(f'line {iff.lineno}: _get_file_parts: condition {ast.unparse(c)!r} not recognised')
+    if not no_ext:
+        raise TranslateError(f'line {iff.lineno}: _get_file_parts: the split is not guarded by `not ext`')
+    call = asg.value
+    tg = [e.id if isinstance(e, ast.Name) else None for e in asg.targets[0].elts]
+    meth = call.func.attr
+    if ast.unparse(call.func.value) != 'filename' or call.keywords or not call.args or not (isinstance(call.args[0], ast.Constant) and isinstance(call.args[0].value, str)):
+        raise TranslateError(f'line {asg.lineno}: _get_file_parts: split call {ast.unparse(call)!r} not recognised')
+    sep = call.args[0].value
+    if len(sep) != 1 or (guard_sep is not None and guard_sep != sep):
+        raise TranslateError(f'line {asg.lineno}: _get_file_parts: separator {sep!r} / guard {guard_sep!r} not recognised')
+    two = tg == ['filename', 'ext'] and len(call.args) == 2 and isinstance(call.args[1], ast.Constant) and call.args[1].value == 1
+    three = len(tg) == 3 and tg[0] == 'filename' and tg[2] == 'ext' and tg[1] not in ('filename', 'ext', 'path') and len(call.args) == 1
+    if meth == 'rsplit' and two and guard_sep is not None:
+        kind = 'SplitLast'
+    elif meth == 'split' and two and guard_sep is not None:
+        kind = 'SplitFirst'
+    elif meth == 'partition' and three:
+        kind = 'SplitFirst'
+    elif meth == 'rpartition' and three and guard_sep is not None:
+        kind = 'SplitLast'
+    else:
+        raise TranslateError(f'line {asg.lineno}: _get_file_parts: split statement {ast.unparse(asg)!r} under {ast.unparse(iff.test)!r} not recognised')
+    return kind, ord(sep), {'line': asg.lineno, 'statement': ast.unparse(asg), 'digest': ast_digest(gfp)}
+
+
 def translate() -> tuple[str, dict]:
     tree = ast.parse(src_text('vpk.py'))
     side: dict = {}
@@ -156,19 +207,20 @@ def translate() -> tuple[str, dict]:
     chk_name = any(isinstance(n, ast.If) and ast.unparse(n.test) == "'\\x00' in part or part == ' '" and isinstance(n.body[0], ast.Raise)
                    for n in ast.walk(newf))
     max_pre = consts.get('MAX_PRELOAD')
+    split_kind, split_sep, split_info = _split_site(tree)
 
     side.update(consts=consts, read_fmt=read_fmt, write_fmt=write_fmt, read_fields=read_fields, write_fields=write_fields,
                 read_dir_sentinel=read_dir_sentinel, write_dir_sentinel=write_dir_sentinel, read_term=read_term,
                 write_term=write_term, zero_len_resets_offset=zero_len_resets_offset, fields_match=fields_match,
                 tail_to_footer=tail_to_footer, preload_capped=cap and split_ok, chk_idx=chk_idx, chk_name=chk_name,
-                blank_written=blank_written, blank_read=blank_read,
+                blank_written=blank_written, blank_read=blank_read, ext_split=[split_kind, split_sep, split_info],
                 lines={'load_dirfile': load.lineno, 'write_dirfile': wdir.lineno, 'FileInfo.write': fwrite.lineno,
                        'new_file': newf.lineno, 'add_file': addf.lineno})
     b = lambda x: 'true' if x else 'false'
     nl = lambda xs: '[' + '; '.join(str(x) for x in xs) + ']%N'
     text = '\n'.join([
         '(* GENERATED by translate/c13_vpk.py from /repo/src/srctools/vpk.py. Do not edit. *)',
-        'From Coq Require Import List NArith Bool.', 'From SV Require Import Fmt.VpkDir SM.Vpk.', 'Import ListNotations.',
+        'From Coq Require Import List NArith Bool.', 'From SV Require Import Fmt.VpkDir SM.Vpk Fmt.VpkNameSplit.', 'Import ListNotations.',
         'Open Scope N_scope.',
         f'Definition g_sig : N := {consts["VPK_SIG"]}.',
         f'Definition g_dir_index_write : N := {write_dir_sentinel}.',
@@ -185,6 +237,7 @@ def translate() -> tuple[str, dict]:
         f'Definition g_tail_to_footer : bool := {b(tail_to_footer)}.',
         f'Definition g_chk_idx : bool := {b(chk_idx)}.',
         f'Definition g_chk_name : bool := {b(chk_name)}.',
+        f'Definition g_ext_split : split_kind := {split_kind} {split_sep}.',
         '(* the instance the model is run and proved with *)',
         'Definition g_dcfg : dcfg := {| c_sig := g_sig; c_dir_index := g_dir_index_write; c_term := g_term_write |}.',
         'Definition g_vcfg (is_dir : bool) (limit : option N) : vcfg :=',
